@@ -89,6 +89,7 @@ WORLD_B_COMPONENTS = {
     "not_run": ["clang/swift/archive/shared-library tools", "lib/Commands", "lib/Ninja"],
 }
 ASSUME_B = [
+    "a build op runs in a new frontend (new client process) or, for about 30% of build ops, in the previous build's frontend (reused BuildSystem)",
     "commands are deterministic functions of declared and discovered inputs (simulated tool)",
     "every edit is observable: the simulated clock is strictly monotonic, so each write changes mtime",
     "discovered dependencies name source files only; directory-tree inputs have complete producer edges",
